@@ -22,6 +22,7 @@ func ipamHistSystems(cloud bool) []*HistSys {
 	for k, v := range histOpsLife {
 		ops[k] = v
 	}
+	ops["lostresp"] = true
 	if cloud {
 		ops["cloudfail"] = true
 	}
